@@ -121,6 +121,55 @@ def run(prog):
     out.append(inst("HS", "%s:clause-product-accumulated" % fn.npath, verdict_of(errs), fn, None,
                     errtext(errs) if errs else "accumulator[i] *= clause product, for every clause that reaches the end of its literal loop"))
     out.append(one_numbering(prog))
+    out += own_hasher(prog)
+    return out
+
+
+def own_hasher(prog):
+    """HS6: a formula and its hasher belong together.  The hasher's occurrence tables, clause numbering, primes and its
+    "skip unit clauses" decision are functions of the clause list it was built from; every `Cnf { .. }` literal therefore
+    pairs `clauses: C` with `hasher: CnfHasher::new(&C, n)` for the same C (a field-wise copy of another Cnf is fine).  A
+    hasher carried over from a related formula and patched up answers for the other formula's clause shapes."""
+    out = []
+    n = 0
+    for fn in prog.lib_fns:
+        if "::test" in fn.npath or fn.name.startswith("test"):
+            continue
+        try:
+            te = fn.terms
+        except Exception:
+            continue
+        for bb, t, line in te.aggs:
+            if not (t[1] == "adt" and t[2] == "repr::cnf::Cnf" and "hasher" in t[5] and "clauses" in t[5]):
+                continue
+            n += 1
+            cl, hs_ = strip(t[4][t[5].index("clauses")]), strip(t[4][t[5].index("hasher")])
+            key = "%s:HS6:own-hasher" % fn.npath
+            def src_of(x):
+                x = strip(x)
+                while mir.is_call(x, "clone") and x[2]:
+                    x = strip(x[2][0])
+                return x
+            a, b = src_of(cl), src_of(hs_)
+            if a[0] == "field" and b[0] == "field" and a[2] == "clauses" and b[2] == "hasher" and strip(a[1]) == strip(b[1]):
+                out.append(inst("HS", key, OK, fn, line, "field-wise copy of one formula"))
+            elif mir.is_call(hs_, "new") and "CnfHasher" in hs_[1].key() and hs_[2]:
+                arg = src_of(hs_[2][0])
+                same = arg == src_of(cl) or show(arg) == show(src_of(cl))
+                out.append(inst("HS", key, OK if same else VIOLATION, fn, line,
+                                "hasher = CnfHasher::new(the stored clauses, ..)" if same else
+                                "the hasher is built from %s but the formula stores %s: hashes of partial assignments describe another "
+                                "clause list" % (show(arg)[:40], show(cl)[:40])))
+            elif any(x[0] == "param" or (x[0] == "field" and x[2] == "hasher") for x in mir.subterms(hs_)):
+                out.append(inst("HS", key, VIOLATION, fn, line,
+                                "the new formula's hasher is derived from another formula's hasher (%s) instead of being built from "
+                                "the clauses it is stored with: what the hasher decided from the other formula's clause shapes (clause "
+                                "numbering, which clauses are units and skipped, the primes) no longer matches, so partial assignments "
+                                "with the same residual formula hash differently" % show(hs_)[:60]))
+            else:
+                out.append(inst("HS", key, UNDECIDED, fn, line, "hasher field is %s" % show(hs_)[:60]))
+    if n < 2:
+        out.append(inst("HS", "repr::cnf::Cnf:HS6:own-hasher", UNDECIDED, None, None, "expected >= 2 Cnf literals (new, clone), found %d" % n))
     return out
 
 
